@@ -26,6 +26,12 @@ func init() {
 		chainProp("C14", "deterministic whole-node simulation: transfers (including zero-value outputs) over forks, reorganisations, orphan resolution and restarts; after every step every queryable view is compared with the UTXO set obtained by replaying the active chain in the model",
 			"After every step, for every transaction of the active chain GetUnspent equals the model's unspent indexes and GetTransaction returns it at the model's height; transactions only on inactive branches are not found; per address GetUTXO equals the model list without zero-value outputs and Ledger.GetAmount equals its exact sum.",
 			"All txids of the run are compared at every step (runs are small); restart exercises the index catch-up path."),
+		chainProp("C32", "deterministic whole-node simulation: the node runs with one actor's address frozen from a plan-chosen height; honest and Byzantine traffic places that address at every input and output position, in mempool submissions and in blocks (including blocks on forks that cross the start height and reorganisations across it), with restarts",
+			"Every transaction admitted to the mempool and every block on the active chain is labelled by the model: from the start height on, a non-coinbase transaction that spends an output owned by the frozen address or pays to it must not be accepted; before it (and for coinbases) it must be (fault-free stratum).",
+			"Only the node-side rule is claimed; the clause 'on mainnet the frozen list is the coordinated one whatever the local configuration says' is a property of settings.SetupConfig with no schedule or fault in it and is not decided by this check."),
+		chainProp("C07", "deterministic whole-node simulation: for valid blocks of 1..12 transactions built on the node's tip, a Byzantine relay first shows the node every kind of single mutation of the transaction list (change, remove, reorder, duplicate, duplicated tail = CVE-2012-2459 shape, coinbase moved, second coinbase) with the header untouched, and with the merkle root recomputed and re-mined where that keeps it rule-breaking; then the original",
+			"Each mutant must be rejected by ProcessBlock and leave the tip unchanged; blocks whose merkle root / coinbase position / duplicate-transaction rules are broken by a Byzantine miner (chainsim's ordinary workload) must never be on the active chain.",
+			"Lengths 1..12, odd and even (probes per length); 'all single mutations' is sampled per block (about 20 mutants per block), not enumerated."),
 		chainProp("C12", "deterministic whole-node simulation: seeded block trees (forks, heavier/equal/lighter branches, invalid blocks inside branches) delivered in permuted order with holds, duplicates and restarts; after every step the active chain is compared with the model's most-work valid chain among blocks the node retains",
 			"After every delivery and quiescence: the active chain consists of model-valid blocks; no valid chain whose blocks the node retains has strictly more work (irreversibility exception honoured); a delivery that errors must not move the node off its previous valid chain to a lighter one; height / per-height hashes / best chain agree.",
 			"\"Knows\" = what the node itself retains (BlockExists); equal work never obliges a switch; time-dependent rejections are generated away from the boundary."),
